@@ -289,6 +289,30 @@ pub fn stream(name: &str, quick: bool) -> Vec<Case> {
                     }
                 }
             }
+            // fine-grained time bases (1 tick = 1 microsecond): busy windows of several 10^5 ticks
+            for scale in [1u64, 1000] {
+                let cb = |t: u64, c: u64, r: u64, kind: Kind| CbCase { arr: ArrSpec::Sporadic { t: t * scale, j: 0 }, cost: CostSpec::Scalar(c * scale), kind, assumed: r * scale };
+                for bw in [false, true] {
+                    v.push(Case::Ros(RosCase::Sub {
+                        bw,
+                        supply: SupplySpec::Dedicated,
+                        workload: vec![cb(50, 30, 60, Kind::Timer), cb(70, 27, 65, Kind::PolledUnknown)],
+                        subchain: vec![0, 1],
+                        limit: 10_000 * scale,
+                    }));
+                    v.push(Case::Ros(RosCase::Sub {
+                        bw,
+                        supply: SupplySpec::Dedicated,
+                        workload: vec![cb(50, 10, 20, Kind::Timer), cb(50, 10, 45, Kind::PolledUnknown), cb(70, 18, 60, Kind::PolledUnknown), cb(30, 9, 40, Kind::PolledUnknown)],
+                        subchain: vec![0, 1],
+                        limit: 10_000 * scale,
+                    }));
+                }
+                let (aa, bb): (AC, AC) = ((ArrSpec::Sporadic { t: 50 * scale, j: 70 * scale }, CostSpec::Scalar(10 * scale)), (ArrSpec::Sporadic { t: 70 * scale, j: 0 }, CostSpec::Scalar(27 * scale)));
+                v.push(Case::Ros(RosCase::EventSource { supply: SupplySpec::Dedicated, demand: vec![aa.clone(), bb.clone()], limit: 10_000 * scale }));
+                v.push(Case::Ros(RosCase::Timer { supply: SupplySpec::Dedicated, own: aa.clone(), hp: vec![bb.clone()], blocking: 3 * scale, limit: 10_000 * scale }));
+                v.push(Case::Ros(RosCase::Pp { supply: SupplySpec::Dedicated, own: aa.clone(), others: vec![bb.clone()], limit: 10_000 * scale }));
+            }
             // divergence limits at the top of the value range on lightly loaded executors
             for sup in [SupplySpec::Dedicated, SupplySpec::Periodic { q: 2, p: 3 }] {
                 for limit in [u64::MAX, u64::MAX - 1, u64::MAX - 7, 1u64 << 63] {
